@@ -69,8 +69,8 @@ async def discover(host: str, port: int = GOODWE_UDP_PORT, timeout: int = 1, ret
             logger.debug("Probing inverter at %s:%s.", host, port)
             response = await DISCOVERY_COMMAND.execute(UdpInverterProtocol(host, port, 0, timeout, retries))
             response = response.response_data()
-            model_name = response[5:15].decode("ascii").rstrip()
-            serial_number = response[31:47].decode("ascii")
+            model_name = response[5:15].decode("ascii", errors="replace").rstrip()
+            serial_number = response[31:47].decode("ascii", errors="replace")
 
             i: Inverter | None = None
             for model_tag in ET_MODEL_TAGS:
